@@ -607,6 +607,19 @@ fn gen_c04(r: &mut Rng, seed: u64) -> Scenario {
     // exits
     let mut events = Vec::new();
     if r.chance(1, 2) && n > 1 {
+        // threads of a stopped process cannot exit: make the stop fail or come late most of the time
+        if !tags.iter().any(|t| t.starts_with("stop-")) && r.chance(3, 4) {
+            if r.coin() {
+                opts.failspots |= 1;
+                tags.push("stop-failspot".into());
+            } else {
+                for t in b.world.threads.iter_mut() {
+                    t.stop_latency_ns = 200_000_000 + r.below(300_000_000);
+                }
+                opts.stop_timeout_ms = Some(*r.pick(&[1u64, 10]));
+                tags.push("stop-late".into());
+            }
+        }
         let k = match r.below(4) {
             0 => n - 1,
             _ => r.range(1, (n as u64 - 1).min(4)) as usize,
@@ -850,6 +863,298 @@ fn gen_c20(r: &mut Rng, seed: u64) -> Scenario {
     sc
 }
 
+fn gen_c17(r: &mut Rng, seed: u64, idx: u64) -> Scenario {
+    // address space: [readable run][hole][readable run][PROT_NONE run][readable run][hole]
+    let mut b = build_world(r, &plain_cfg(1, 0));
+    b.world.fds.clear();
+    let pages = |r: &mut Rng| r.range(1, 3) * 0x1000;
+    let l1 = pages(r);
+    let a1 = b.add_anon(l1, "rw-p", r.next(), 4);
+    let l2 = pages(r).max(0x12000 * (r.below(2)));
+    let l2 = if l2 == 0 { 0x1000 } else { l2 };
+    let a2 = b.add_anon(l2, "r--p", r.next(), 1);
+    let l3 = pages(r);
+    let a3 = b.add_anon(l3, "---p", r.next(), 0);
+    let l4 = pages(r);
+    let a4 = b.add_anon(l4, "rw-p", r.next(), 0);
+    let runs = [(a1, l1, true), (a2, l2, true), (a3, l3, false), (a4, l4, true)];
+    let mut ops = Vec::new();
+    let mut tags = Vec::new();
+    let grid = idx < 64;
+    let lens: Vec<u64> = (1..=17).chain([4095, 4096, 4097, 65535, 65536]).collect();
+    let nops = if grid { lens.len() * 3 } else { r.range(1, 12) as usize };
+    for i in 0..nops {
+        let (start, len_run, _rd) = *r.pick(&runs);
+        let len = if grid { lens[i % lens.len()] } else {
+            match r.below(5) {
+                0 => r.range(1, 17),
+                1 => *r.pick(&[4095u64, 4096, 4097]),
+                2 => *r.pick(&[65535u64, 65536]),
+                _ => r.range(1, 9000),
+            }
+        };
+        let align = if grid { idx % 8 } else { r.below(8) };
+        let pos_kind = if grid { (i / lens.len()) as u64 } else { r.below(4) };
+        let end = start + len_run;
+        let src = match pos_kind {
+            0 => start + align + 8 * r.below(4),                          // inside, near the run start
+            1 => end.saturating_sub(len),                                   // ends exactly at the end of the run
+            2 => end.saturating_sub(len / 2 + 1),                           // crosses the end of the run
+            _ => start + r.below(len_run),
+        };
+        let src = if pos_kind == 1 && grid { src } else { src };
+        let strategy = if grid { ((idx / 8) % 4) as u8 } else { r.below(4) as u8 };
+        ops.push(MemReadOp { strategy, src, len });
+        let t = format!("s{}", strategy);
+        if !tags.contains(&t) {
+            tags.push(t);
+        }
+    }
+    tags.sort();
+    let mut faults = Vec::new();
+    if !grid && r.chance(1, 4) {
+        // force the fallbacks of the auto-probing reader
+        faults.push(FaultRule { trig: Trigger { kind: CallKind::Vmreadv, nth: 0, path: None }, effect: Effect::Errno(*r.pick(&[38, 1])), times: 1000, exotic: false });
+        tags.push("vm-unavailable".into());
+        if r.coin() {
+            faults.push(FaultRule { trig: Trigger { kind: CallKind::Open, nth: 0, path: Some("/mem".into()) }, effect: Effect::Errno(13), times: 1000, exotic: false });
+            tags.push("mem-file-unavailable".into());
+        }
+        for o in ops.iter_mut() {
+            o.strategy = 3;
+        }
+    }
+    Scenario {
+        prop: "C17".into(),
+        seed,
+        profile: if grid { "c17-boundary-grid".into() } else { "c17-random".into() },
+        world: b.world,
+        workload: Workload::MemRead(ops),
+        events: Vec::new(),
+        faults,
+        sched: Sched::default(),
+        tags,
+    }
+}
+
+const FAILSPOT_EXPECT: [(&str, &[&str]); 5] = [
+    ("expect:InitErrors/StopProcessFailed", &[]),
+    ("expect:InitErrors/FillMissingAuxvInfoErrors", &[]),
+    ("expect:EnumerateThreadsErrors/ReadThreadNameFailed", &["affects:names"]),
+    ("expect:SuspendThreadsErrors/PtraceAttachError", &[]),
+    ("expect:WriteSystemInfoErrors/WriteCpuInformationFailed", &["affects:sysinfo"]),
+];
+
+fn push_tags(tags: &mut Vec<String>, xs: &[&str]) {
+    for x in xs {
+        if !tags.iter().any(|t| t == x) {
+            tags.push(x.to_string());
+        }
+    }
+}
+
+fn last_open_index(clean: &crate::run::RunResult, path: &str) -> Option<u32> {
+    let d = clean.dumps.first()?;
+    let n = d.kernel_after.gt.opens.iter().filter(|(p, _)| p == path.as_bytes()).count();
+    if n == 0 {
+        None
+    } else {
+        Some(n as u32 - 1)
+    }
+}
+
+fn gen_c11(r: &mut Rng, seed: u64, idx: u64) -> Scenario {
+    let fixed = idx < 256;
+    let n = if fixed { [1usize, 2, 5, 24][((idx / 32) % 4) as usize] } else { *r.pick(&[1usize, 2, 3, 5, 8, 24]) };
+    let mut cfg = plain_cfg(n, 1);
+    cfg.nfds = 3;
+    let mut b = build_world(r, &cfg);
+    let blamed = if fixed { PID } else { tid_of(r.below(n as u64) as usize) };
+    let mut opts = Opts { blamed, ..Default::default() };
+    let with_crash = if fixed { (idx / 128) % 2 == 1 } else { r.coin() };
+    if with_crash {
+        let (ss, sl) = stack_of(&b, blamed);
+        let exe = &b.modules[0];
+        let rip = exe.base + exe.image.text_off + 0x180;
+        opts.crash = Some(crash_spec(r, blamed, ss + sl / 2, rip));
+    }
+    let mut tags: Vec<String> = vec![format!("n{}", n), if with_crash { "crash".into() } else { "nocrash".into() }];
+    let mut faults: Vec<FaultRule> = Vec::new();
+    let mut events: Vec<Event> = Vec::new();
+    if fixed {
+        opts.failspots = (idx % 32) as u8;
+        for bit in 0..5 {
+            if opts.failspots & (1 << bit) != 0 {
+                push_tags(&mut tags, &[FAILSPOT_EXPECT[bit].0]);
+                push_tags(&mut tags, FAILSPOT_EXPECT[bit].1);
+            }
+        }
+        tags.push(format!("failspots{:05b}", opts.failspots));
+        let mut sc = simple_dump_scenario("C11", seed, "c11-failspot-subsets", b, opts);
+        sc.tags = tags;
+        return sc;
+    }
+    // natural failures: one or two kinds per run (sometimes none: the list must then be empty)
+    let clean = {
+        let sc = simple_dump_scenario("C11", seed, "c11-pre", Built { world: b.world.clone(), modules: Vec::new(), stacks: Vec::new(), heap: b.heap, vdso_base: b.vdso_base, anon_next: b.anon_next }, opts.clone());
+        crate::run::run(&sc, &crate::run::RunOpts { settle_rounds: 0, ..Default::default() })
+    };
+    let nkinds = match r.below(8) {
+        0 => 0,
+        1..=5 => 1,
+        _ => 2,
+    };
+    let mut used: Vec<u64> = Vec::new();
+    for _ in 0..nkinds {
+        let kind = r.below(16);
+        if used.contains(&kind) {
+            continue;
+        }
+        used.push(kind);
+        let open_fault = |path: &str, nth: u32, e: i32| FaultRule { trig: Trigger { kind: CallKind::Open, nth, path: Some(path.to_string()) }, effect: Effect::Errno(e), times: 1, exotic: false };
+        match kind {
+            0 => {
+                faults.push(FaultRule { trig: Trigger { kind: CallKind::Kill, nth: 0, path: None }, effect: Effect::Errno(1), times: 1, exotic: false });
+                push_tags(&mut tags, &["expect:InitErrors/StopProcessFailed", "stop-eperm"]);
+            }
+            1 => {
+                for t in b.world.threads.iter_mut() {
+                    t.stop_latency_ns = 500_000_000;
+                }
+                opts.stop_timeout_ms = Some(*r.pick(&[1u64, 5, 20]));
+                push_tags(&mut tags, &["expect:InitErrors/StopProcessFailed", "stop-timeout"]);
+            }
+            2 if b.world.auxv_cut == 0 => {
+                b.world.auxv_missing = true;
+                push_tags(&mut tags, &["expect:InitErrors/FillMissingAuxvInfoFailed", "expect:*/WriteAuxvFailed", "expect:*/WriteDSODebugStreamFailed", "affects:modules", "affects:dso", "affects:raw0x47670008", "auxv-missing"]);
+            }
+            3 if !b.world.auxv_missing => {
+                b.world.auxv_cut = *r.pick(&[8u64, 16, 24]);
+                push_tags(&mut tags, &["expect:InitErrors/FillMissingAuxvInfoErrors", "affects:raw0x47670008", "auxv-truncated"]);
+            }
+            4 => {
+                let mut any = false;
+                for t in b.world.threads.iter_mut() {
+                    if r.chance(1, 2) {
+                        any = true;
+                        match r.below(4) {
+                            0 => t.comm_fault = Some("enoent".into()),
+                            1 => t.comm_fault = Some("eacces".into()),
+                            2 => t.comm_fault = Some("eio".into()),
+                            _ => t.comm = B(invalid_utf8_comm(r)),
+                        }
+                    }
+                }
+                if any {
+                    push_tags(&mut tags, &["expect:EnumerateThreadsErrors/ReadThreadNameFailed", "affects:names", "names-unreadable"]);
+                }
+            }
+            5 => {
+                // some threads cannot be attached to
+                let all = r.chance(1, 6);
+                let mut any = false;
+                for (i, t) in b.world.threads.iter_mut().enumerate() {
+                    if all || (t.tid != blamed && r.chance(1, 2) && i > 0) {
+                        t.foreign_tracer = true;
+                        any = true;
+                    }
+                }
+                if any {
+                    push_tags(&mut tags, &["expect:SuspendThreadsErrors/PtraceAttachError", "affects:threads", "affects:memory", "affects:names", "attach-eperm"]);
+                    if all {
+                        push_tags(&mut tags, &["expect:*/SuspendNoThreadsLeft", "affects:exception", "affects:raw0x47670004", "attach-none"]);
+                    }
+                }
+            }
+            6 => {
+                if n > 1 {
+                    let ti = r.range(1, n as u64 - 1) as usize;
+                    if tid_of(ti) != blamed {
+                        // a thread can only exit between enumeration and attach if the process is not stopped
+                        if !tags.iter().any(|t| t == "stop-eperm") {
+                            faults.push(FaultRule { trig: Trigger { kind: CallKind::Kill, nth: 0, path: None }, effect: Effect::Errno(1), times: 1, exotic: false });
+                            push_tags(&mut tags, &["expect:InitErrors/StopProcessFailed", "stop-eperm"]);
+                        }
+                        events.push(Event { trig: Trigger { kind: CallKind::PtraceAttach, nth: 0, path: None }, what: EventKind::ThreadExit { tid: tid_of(ti) } });
+                        push_tags(&mut tags, &["expect:SuspendThreadsErrors/PtraceAttachError", "affects:threads", "affects:memory", "affects:names", "affects:raw0x47670004", "attach-esrch"]);
+                    }
+                }
+            }
+            7 => {
+                let e = *r.pick(&[2, 13, 24]);
+                faults.push(open_fault("/proc/cpuinfo", 0, e));
+                push_tags(&mut tags, &["expect:WriteSystemInfoErrors/WriteCpuInformationFailed", "affects:sysinfo", "cpuinfo-open"]);
+                if r.coin() {
+                    faults.push(open_fault("/proc/cpuinfo", 1, e));
+                    push_tags(&mut tags, &["expect:*/WriteCpuInfoFailed", "affects:raw0x47670003"]);
+                }
+            }
+            8 => {
+                let drop = *r.pick(&["model\t", "stepping", "cpu family", "processor"]);
+                if let Some(c) = &b.world.cpuinfo {
+                    let text = String::from_utf8_lossy(&c.0).into_owned();
+                    let kept: Vec<&str> = text.split('\n').filter(|l| !l.starts_with(drop)).collect();
+                    b.world.cpuinfo = Some(B(kept.join("\n").into_bytes()));
+                }
+                push_tags(&mut tags, &["expect:WriteSystemInfoErrors/WriteCpuInformationFailed", "affects:sysinfo", "affects:raw0x47670003", "cpuinfo-fields"]);
+            }
+            9 | 10 => {
+                let files: [(&str, &str, &str); 6] = [
+                    ("status", "expect:*/WriteThreadProcStatusFailed", "affects:raw0x47670004"),
+                    ("cmdline", "expect:*/WriteCommandLineFailed", "affects:raw0x47670006"),
+                    ("environ", "expect:*/WriteEnvironmentFailed", "affects:raw0x47670007"),
+                    ("auxv", "expect:*/WriteAuxvFailed", "affects:raw0x47670008"),
+                    ("maps", "expect:*/WriteMapsFailed", "affects:raw0x47670009"),
+                    ("limits", "expect:*/WriteLimitsFailed", "affects:raw0x4d7a0003"),
+                ];
+                let (f, exp, aff) = *r.pick(&files);
+                let path = format!("/proc/{}/{}", blamed, f);
+                if let Some(nth) = last_open_index(&clean, &path) {
+                    faults.push(open_fault(&path, nth, *r.pick(&[2, 13, 24])));
+                    push_tags(&mut tags, &[exp, aff, "file-copy"]);
+                }
+            }
+            11 => {
+                faults.push(open_fault("/etc/lsb-release", 0, 2));
+                if r.coin() {
+                    faults.push(open_fault("/etc/os-release", 0, 13));
+                    push_tags(&mut tags, &["expect:*/WriteOsReleaseInfoFailed", "affects:raw0x47670005", "release-both"]);
+                } else {
+                    push_tags(&mut tags, &["affects:raw0x47670005", "release-fallback"]);
+                }
+            }
+            12 => {
+                b.world.auxv.retain(|(k, _)| *k != AT_PHDR);
+                push_tags(&mut tags, &["expect:*/WriteDSODebugStreamFailed", "affects:dso", "affects:raw0x47670008", "no-at-phdr"]);
+            }
+            13 => {
+                for kv in b.world.auxv.iter_mut() {
+                    if kv.0 == AT_PHDR {
+                        kv.1 = 0x1000;
+                    }
+                }
+                push_tags(&mut tags, &["expect:*/WriteDSODebugStreamFailed", "affects:dso", "affects:raw0x47670008", "phdr-unreadable"]);
+            }
+            14 => {
+                if let Some(off) = b.modules[0].image.dt_debug_val_off {
+                    b.world.plants.push((EXE_BASE + off, 0x2000));
+                    push_tags(&mut tags, &["expect:*/WriteDSODebugStreamFailed", "affects:dso", "affects:memory", "affects:threads", "r_debug-unreadable"]);
+                }
+            }
+            15 => {
+                b.world.fd_dir_fails = true;
+                push_tags(&mut tags, &["expect:*/WriteHandleDataStreamFailed", "affects:handles", "fd-dir"]);
+            }
+            _ => {}
+        }
+    }
+    let mut sc = simple_dump_scenario("C11", seed, "c11-natural-failures", b, opts);
+    sc.faults = faults;
+    sc.events = events;
+    sc.tags = tags;
+    sc
+}
+
 pub fn generate(prop: &str, verif_seed: u64, idx: u64) -> Scenario {
     let seed = derive_seed(verif_seed, prop, idx);
     let mut r = Rng::new(seed);
@@ -864,6 +1169,8 @@ pub fn generate(prop: &str, verif_seed: u64, idx: u64) -> Scenario {
         "C07" => gen_c07(&mut r, seed),
         "C15" => gen_c15(&mut r, seed, idx),
         "C20" => gen_c20(&mut r, seed),
+        "C17" => gen_c17(&mut r, seed, idx),
+        "C11" => gen_c11(&mut r, seed, idx),
         "C09" => match idx % 3 {
             0 => {
                 let mut sc = small_rich(&mut r, prop, seed, "c09-dump-dest-faults");
